@@ -13,11 +13,25 @@ Record obs := O {
   o_st : N; o_body : N; o_hassync : bool; o_cur : N; o_hist : list rev;
   o_fcas : bool; o_fcrc : bool; o_hasvv : bool; o_fcv : bool; o_fcvcas : bool;
   o_hasmou : bool; o_fmou : bool; o_fpcas : bool;
-  o_vfull : N; o_vdoc : N; o_vxattr : N; o_res : N; o_sequp : bool; o_imports : N; o_fired : bool; o_att : bool }.
+  o_vfull : N; o_vdoc : N; o_vxattr : N; o_res : N; o_sequp : bool; o_imports : N; o_fired : bool; o_att : bool;
+  (* deepening: _vv current version (source id; the hand-made version constant when the source is foreign, else 0),
+     merge / previous versions (source id, version constant), _sync.rev.src agrees with _vv.src, and the deltas of
+     ImportCancelCAS / ImportErrorCount during the op.  (The VALUE of a version of the gateway's own source is an HLC
+     reading or a CAS: its relation to CAS values -- version of an imported mutation = its CAS -- is checked on the real
+     values by the harness monitor import_hlv_dominates_previous, cvCas / _mou.pCas through o_fcvcas / o_fpcas.) *)
+  o_cvsrc : N; o_cvk : N; o_mv : alist; o_pv : alist; o_fsrc : bool; o_cancel : N; o_errs : N }.
 
 Inductive case := C (ops : list op) (observed : list obs).
 
+Definition alist_sub (a b : alist) : bool :=
+  forallb (fun p => match aget b (fst p) with Some x => x =? snd p | None => false end) a.
+Definition amap_eqb (a b : alist) : bool :=
+  (N.of_nat (length a) =? N.of_nat (length b)) && alist_sub a b && alist_sub b a.
+
 Definition obs_eqb (a b : obs) : bool :=
+  (o_cvsrc a =? o_cvsrc b) && (o_cvk a =? o_cvk b) &&
+  amap_eqb (o_mv a) (o_mv b) && amap_eqb (o_pv a) (o_pv b) && Bool.eqb (o_fsrc a) (o_fsrc b) &&
+  (o_cancel a =? o_cancel b) && (o_errs a =? o_errs b) &&
   (o_st a =? o_st b) && (o_body a =? o_body b) && Bool.eqb (o_hassync a) (o_hassync b) && (o_cur a =? o_cur b) &&
   list_eqb rev_eqb (o_hist a) (o_hist b) &&
   Bool.eqb (o_fcas a) (o_fcas b) && Bool.eqb (o_fcrc a) (o_fcrc b) && Bool.eqb (o_hasvv a) (o_hasvv b) &&
@@ -31,11 +45,18 @@ Definition res_code (r : res) : N :=
 Definition b2n (b : bool) : N := if b then 1 else 0.
 
 (* projection of the model state, mirroring c09Env.observe *)
-Definition project (lastseq : N) (s : state) (r : res) (imp0 : N) (fired : bool) : obs * N :=
+Definition project (lastseq : N) (s : state) (r : res) (imp0 can0 err0 : N) (fired : bool) : obs * N :=
   let d := doc s in
+  let cvsrc := match d_vv d with Some v => v_src v | None => 99 end in
+  let cvk := match d_vv d with Some v => if v_src v =? local_src then 0 else v_ver v | None => 0 end in
+  let mv := match d_vv d with Some v => v_mv v | None => [] end in
+  let pv := match d_vv d with Some v => v_pv v | None => [] end in
+  let dc := cancels s - can0 in
+  let de := imperrs s - err0 in
   let st := match d_st d with Absent => 0 | Alive => 1 | Tomb => 2 end in
   match d_st d with
-  | Absent => (O 0 0 false 0 [] false false false false false false false false 2 2 3 (res_code r) false (imports s - imp0) fired false, lastseq)
+  | Absent => (O 0 0 false 0 [] false false false false false false false false 2 2 3 (res_code r) false (imports s - imp0) fired false
+                 99 0 [] [] false dc de, lastseq)
   | _ =>
     let body := if is_alive d then d_body d else 0 in
     let hasvv := match d_vv d with Some _ => true | None => false end in
@@ -45,15 +66,18 @@ Definition project (lastseq : N) (s : state) (r : res) (imp0 : N) (fired : bool)
     let fpcas := match d_mou d, d_vv d with Some m, Some v => m_pcas m =? v_cvcas v | _, _ => false end in
     match d_sync d with
     | None =>
-        (O st body false 0 [] false false hasvv false fcvcas hasmou fmou fpcas 2 2 3 (res_code r) false (imports s - imp0) fired false, lastseq)
+        (O st body false 0 [] false false hasvv false fcvcas hasmou fmou fpcas 2 2 3 (res_code r) false (imports s - imp0) fired false
+           cvsrc cvk mv pv false dc de, lastseq)
     | Some sy =>
         let fcv := match d_vv d with Some v => v_ver v =? s_cv sy | None => false end in
+        let fsrc := match d_vv d with Some v => v_src v =? s_cvsrc sy | None => false end in
         (O st body true (cur_gen d) (s_hist sy)
            (d_cas d =? s_cas sy) (body_crc ccrc cdel d =? s_crc sy) hasvv fcv fcvcas hasmou fmou fpcas
            (b2n (sd_is_sg_write sy (d_cas d) (body_crc ccrc cdel d) (d_vv d)))
            (b2n (doc_is_sg_write ccrc cdel d None))
            (sd_xattr_only cdel sy (d_cas d) (is_tomb d) (d_vv d))
-           (res_code r) (negb (s_seq sy =? lastseq)) (imports s - imp0) fired (s_att sy), s_seq sy)
+           (res_code r) (negb (s_seq sy =? lastseq)) (imports s - imp0) fired (s_att sy)
+           cvsrc cvk mv pv fsrc dc de, s_seq sy)
     end
   end.
 
@@ -62,7 +86,7 @@ Fixpoint trace (s : state) (lastseq : N) (ops : list op) : list obs :=
   | [] => []
   | o :: rest =>
       let '(s', r, fired) := step code_fixed ccrc cdel s o in
-      let '(ob, ls) := project lastseq s' r (imports s) fired in
+      let '(ob, ls) := project lastseq s' r (imports s) (cancels s) (imperrs s) fired in
       ob :: trace s' ls rest
   end.
 
